@@ -157,9 +157,9 @@ func (c *Collection) add(key string, exp Exp, val []byte, isJSON bool) (added bo
 		exp = absoluteExpiry(exp)
 		var revSeqNo uint64 = 1
 		result, err := txn.Exec(
-			`INSERT INTO documents (collection,key,value,cas,exp,isJSON, revSeqNo) VALUES (?1,?2,?3,?4,?5,?6,?7)
+			`INSERT INTO documents (collection,key,value,cas,exp,isJSON, revSeqNo, tombstone) VALUES (?1,?2,?3,?4,?5,?6,?7,(?3 IS NULL))
 				ON CONFLICT(collection,key) DO
-					UPDATE SET value=?3, xattrs=null, cas=?4, exp=?5, isJSON=?6, tombstone=0, revSeqNo=revSeqNo+1
+					UPDATE SET value=?3, xattrs=null, cas=?4, exp=?5, isJSON=?6, tombstone=(?3 IS NULL), revSeqNo=revSeqNo+1
 					WHERE tombstone != 0`,
 			c.id, key, val, newCas, exp, isJSON, 1, revSeqNo)
 		if err != nil {
@@ -178,12 +178,13 @@ func (c *Collection) add(key string, exp Exp, val []byte, isJSON bool) (added bo
 		}
 
 		e = &event{
-			key:      key,
-			value:    val,
-			cas:      casOut,
-			exp:      exp,
-			isJSON:   isJSON,
-			revSeqNo: revSeqNo,
+			key:        key,
+			value:      val,
+			isDeletion: (val == nil),
+			cas:        casOut,
+			exp:        exp,
+			isJSON:     isJSON,
+			revSeqNo:   revSeqNo,
 		}
 		e.xattrs, err = c.getRawXattrs(txn, key) // needed for the DCP event
 		return
@@ -210,13 +211,14 @@ func (c *Collection) set(key string, exp Exp, opts *sgbucket.UpsertOptions, val 
 			return nil, err
 		}
 		return &event{
-			key:      key,
-			value:    val,
-			cas:      newCas,
-			exp:      exp,
-			isJSON:   isJSON,
-			xattrs:   xattrs,
-			revSeqNo: revSeqNo,
+			key:        key,
+			value:      val,
+			isDeletion: (val == nil),
+			cas:        newCas,
+			exp:        exp,
+			isJSON:     isJSON,
+			xattrs:     xattrs,
+			revSeqNo:   revSeqNo,
 		}, err
 	})
 }
@@ -249,11 +251,11 @@ func (c *Collection) _set(txn *sql.Tx, key string, exp Exp, opts *sgbucket.Upser
 		if opts != nil && opts.PreserveExpiry {
 			exp = oldExp
 		}
-		stmt = `UPDATE documents SET value=?3, xattrs=?4, cas=?5, exp=?6, isJSON=?7, revSeqNo=?8, tombstone=0
+		stmt = `UPDATE documents SET value=?3, xattrs=?4, cas=?5, exp=?6, isJSON=?7, revSeqNo=?8, tombstone=(?3 IS NULL)
 				WHERE collection=?1 AND key=?2`
 	} else {
-		stmt = `INSERT INTO documents (collection,key,value,xattrs,cas,exp,isJSON,revSeqNo)
-				VALUES (?1,?2,?3,?4,?5,?6,?7,?8)`
+		stmt = `INSERT INTO documents (collection,key,value,xattrs,cas,exp,isJSON,revSeqNo,tombstone)
+				VALUES (?1,?2,?3,?4,?5,?6,?7,?8,(?3 IS NULL))`
 	}
 	_, err = txn.Exec(stmt, c.id, key, val, xattrs, newCas, exp, isJSON, revSeqNo)
 	expOut = exp
